@@ -61,18 +61,17 @@ class MultipleOf(Validator):
 
     def _validate(self, value: Any):
         multiple_of = self.params["multipleOf"]
-        if isinstance(multiple_of, float):
-            try:
+        try:
+            if isinstance(multiple_of, float):
                 quotient = value / multiple_of
                 failed = int(quotient) != quotient
+            else:
+                failed = bool(value % multiple_of)
+        except (OverflowError, ValueError):
+            # The operands do not fit in a float: compare exactly.
+            try:
+                failed = Fraction(value) % Fraction(multiple_of) != 0
             except (OverflowError, ValueError):
-                # The quotient does not fit in a float: compare exactly.
-                try:
-                    failed = Fraction(value) % Fraction(multiple_of) != 0
-                except (OverflowError, ValueError):
-                    failed = True
-            if failed:
-                raise ValidationError
-            return
-        if value % multiple_of:
+                failed = True
+        if failed:
             raise ValidationError
